@@ -124,7 +124,15 @@ func VerifHarness_RequestOutcomes() {
 	case 3:
 		final = w.servers[2]
 	}
-	res, err := w.pl.createConnectionRequest(target).internalConnect(context.Background())
+	// through the public entry points as well as the internal one
+	var res *connectionResult
+	var err error
+	switch zz.Choose(2) {
+	case 0:
+		res, err = w.pl.createConnectionRequest(target).internalConnect(context.Background())
+	case 1:
+		res, err = w.pl.createConnectionRequest(target).connect(context.Background())
+	}
 	preConnects, _ := zzCountEvents16[*ServerPreConnectEvent](w.ev)
 	switch {
 	case !(inflight != nil || (cur != nil && !joined)) && cur != target && redirect == 1:
@@ -333,4 +341,43 @@ func VerifHarness_SuccessfulSwitch() {
 	post, _ := zzCountEvents16[*ServerPostConnectEvent](w.ev)
 	zz.Assert(pre == 1 && post == 1, "the connected / post-connect events were not fired exactly once")
 	zz.Reach("switched")
+}
+
+// The in-flight slot belongs to one attempt: making a server current frees the slot only if that very
+// connection holds it, and a request that returns leaves the slot alone when a newer attempt has claimed
+// it meanwhile (a follow-up request started from a post-connect subscriber, still connecting).
+func VerifHarness_SlotBelongsToItsAttempt() {
+	w := zzNewSwitchWorld()
+	lobby, game, mini := w.servers[0], w.servers[1], w.servers[2]
+	switch zz.Choose(2) {
+	case 0:
+		// 1.20.2+ switches clear the current server while the new backend is in its configuration phase
+		attempt := newServerConnection(game, lobby, w.pl)
+		w.pl.connInFlight = attempt
+		var other *serverConnection
+		if zz.Bool() {
+			other = newServerConnection(lobby, nil, w.pl)
+		}
+		w.pl.setConnectedServer(other)
+		zz.Assert(w.pl.connectionInFlight() == attempt, "making another connection (or none) the current server wiped the in-flight slot of a running attempt")
+		w.pl.setConnectedServer(attempt)
+		zz.Assert(w.pl.connectionInFlight() == nil && w.pl.connectedServer() == attempt, "completing the attempt did not free its in-flight slot")
+		zz.Reach("set-connected")
+	case 1:
+		followUp := newServerConnection(mini, game, w.pl)
+		zz.Replace("(*go.minekube.com/gate/pkg/edition/java/proxy.serverConnection).connect", func(s *serverConnection, ctx context.Context) (*connectionResult, error) {
+			// the attempt succeeds: the transition makes it current (which frees its slot) and a
+			// post-connect subscriber at once starts a follow-up request that is still connecting
+			w.pl.setConnectedServer(s)
+			w.pl.connInFlight = followUp
+			return &connectionResult{status: SuccessConnectionStatus, safe: true, attemptedConn: s.server}, nil
+		})
+		res, err := w.pl.createConnectionRequest(game).internalConnect(context.Background())
+		zz.Assert(err == nil && res.Status() == SuccessConnectionStatus, "the attempt did not succeed")
+		zz.Assert(w.pl.connectionInFlight() == followUp, "a request that returned wiped the in-flight slot of a newer attempt")
+		// and a third request is told so
+		res, err = w.pl.createConnectionRequest(lobby).internalConnect(context.Background())
+		zz.Assert(err == nil && res.Status() == InProgressConnectionStatus, "a request made while the follow-up attempt is connecting was not reported as in progress")
+		zz.Reach("follow-up")
+	}
 }
